@@ -329,7 +329,11 @@ fn expr_get_value<'a>(interp: &mut Interp, info: &'a mut ExprInfo, prec: i32) ->
                 match operator {
                     UNARY_MINUS => match value.vtype {
                         Type::Int => {
-                            value.int = -value.int;
+                            if let Some(int) = value.int.checked_neg() {
+                                value.int = int;
+                            } else {
+                                return molt_err!("integer overflow");
+                            }
                         }
                         Type::Float => {
                             value.flt = -value.flt;
@@ -1389,9 +1393,12 @@ fn expr_abs_func(args: &[Datum; MAX_MATH_ARGS]) -> DatumResult {
             Ok(Datum::float(arg.flt))
         }
     } else {
-        // TODO: need to handle integer overflow here.
         if arg.int < 0 {
-            Ok(Datum::int(-arg.int))
+            if let Some(int) = arg.int.checked_neg() {
+                Ok(Datum::int(int))
+            } else {
+                molt_err!("integer overflow")
+            }
         } else {
             Ok(Datum::int(arg.int))
         }
